@@ -743,11 +743,15 @@ mod sync {
             pub fn new() -> Self {
                 #[cfg(any(feature="rt_tokio", feature="rt_async-std", feature="rt_smol", feature="rt_nio"))]
                 ::ctrlc::set_handler(|| {
+                    #[cfg(ohkami_verif)] crate::__verif::sched("h:begin");
                     CATCH.store(true, Ordering::SeqCst);
+                    #[cfg(ohkami_verif)] crate::__verif::sched("h:after_store");
                     let waker = WAKER.swap(null_mut(), Ordering::SeqCst);
+                    #[cfg(ohkami_verif)] crate::__verif::sched("h:after_swap");
                     if !waker.is_null() {
                         unsafe {Box::from_raw(waker)}.wake();
                     }
+                    #[cfg(ohkami_verif)] crate::__verif::sched("h:end");
                 }).expect("Something went wrong with Ctrl-C");
 
                 #[cfg(any(feature="rt_glommio"))]
@@ -775,9 +779,11 @@ mod sync {
                         match unsafe {Pin::new_unchecked(&mut self.get_unchecked_mut().0)}.poll(cx) {
                             Poll::Ready(t) => Poll::Ready(Some(t)),
                             Poll::Pending  => if CATCH.load(Ordering::SeqCst) {
+                                #[cfg(ohkami_verif)] crate::__verif::sched("p:after_load_true");
                                 crate::DEBUG!("[CtrlC::catch] Ready");
                                 Poll::Ready(None)
                             } else {
+                                #[cfg(ohkami_verif)] crate::__verif::sched("p:after_load_false");
                                 #[cfg(any(feature="rt_tokio", feature="rt_async-std", feature="rt_smol", feature="rt_nio"))] {
                                     let prev_waker = WAKER.swap(
                                         Box::into_raw(Box::new(cx.waker().clone())),
@@ -786,6 +792,7 @@ mod sync {
                                     if !prev_waker.is_null() {
                                         unsafe {prev_waker.drop_in_place()}
                                     }
+                                    #[cfg(ohkami_verif)] crate::__verif::sched("p:after_publish");
                                 }
                                 #[cfg(any(feature="rt_glommio"))] {
                                     let current_id = glommio::executor().id();
